@@ -78,6 +78,7 @@ Theorem C11_primary_table : primaries = [
   ([45; 102; 115; 116; 121; 112; 101], (1, 0));
   ([45; 103; 105; 100], (1, 0));
   ([45; 103; 114; 111; 117; 112], (1, 0));
+  ([45; 105; 103; 110; 111; 114; 101; 95; 114; 101; 97; 100; 100; 105; 114; 95; 114; 97; 99; 101], (0, 0));
   ([45; 105; 108; 110; 97; 109; 101], (1, 0));
   ([45; 105; 110; 97; 109; 101], (1, 0));
   ([45; 105; 110; 117; 109], (1, 0));
@@ -95,8 +96,10 @@ Theorem C11_primary_table : primaries = [
   ([45; 110; 97; 109; 101], (1, 0));
   ([45; 110; 101; 119; 101; 114], (1, 0));
   ([45; 110; 111; 103; 114; 111; 117; 112], (0, 0));
+  ([45; 110; 111; 105; 103; 110; 111; 114; 101; 95; 114; 101; 97; 100; 100; 105; 114; 95; 114; 97; 99; 101], (0, 0));
   ([45; 110; 111; 108; 101; 97; 102], (0, 0));
   ([45; 110; 111; 117; 115; 101; 114], (0, 0));
+  ([45; 110; 111; 119; 97; 114; 110], (0, 0));
   ([45; 112; 97; 116; 104], (1, 0));
   ([45; 112; 101; 114; 109], (1, 0));
   ([45; 112; 114; 105; 110; 116], (0, 1));
@@ -114,6 +117,7 @@ Theorem C11_primary_table : primaries = [
   ([45; 116; 121; 112; 101], (1, 0));
   ([45; 117; 105; 100], (1, 0));
   ([45; 117; 115; 101; 114], (1, 0));
+  ([45; 119; 97; 114; 110], (0, 0));
   ([45; 119; 104; 111; 108; 101; 110; 97; 109; 101], (1, 0));
   ([45; 119; 114; 105; 116; 97; 98; 108; 101], (0, 0));
   ([45; 120; 100; 101; 118], (0, 0));
